@@ -41,7 +41,9 @@ def parseMsgPart (kv : KV) (p : String) : MessageMsg :=
     dataNonEmpty := flag kv (p ++ ".data"), dataValid := get kv (p ++ ".dvalid") != "0",
     data := { jsonOk := get kv (p ++ ".dj") == "ok", dtype := get kv (p ++ ".dtype"),
               roomType := (let r := get kv (p ++ ".drt"); if r == "valid" then .valid else if r == "invalid" then .invalid else .empty),
-              sdp := (let r := get kv (p ++ ".dsdp"); if r == "nostr" then .nostr else if r == "bad" then .bad else if r == "ok" then .ok else .none) } }
+              sdp := (let r := get kv (p ++ ".dsdp"); if r == "nostr" then .nostr else if r == "bad" then .bad else if r == "ok" then .ok else .none) },
+    sdata := { jsonOk := get kv (p ++ ".sdj") == "ok", dtype := get kv (p ++ ".sdtype"),
+               chat := (match kv.lookup (p ++ ".sdchat") with | some v => some (v == "1") | none => none) } }
 
 def parseCommon (kv : KV) (p : String) : Common := { sid := get kv (p ++ ".sid"), room := roomClass kv (p ++ ".room") }
 
@@ -132,30 +134,51 @@ def render (o : Obs) (seen : Option Seen) : String :=
 
 /-! ### states the harness can put the sender in -/
 
-def sessOf (name : String) : Option Conn :=
+/-- `noroom`: the world's bystander is in no room, `vroom` is a room like any other. -/
+def sessOf (name : String) (noroom : Bool := false) : Option Conn :=
   let base : Sess := { internal := false, dialoutFeat := false, restrictedUser := false, restricted := false, anon := false, room := .none, fed := false }
-  if name == "nosession" then some .nosession
+  let vroom : RoomRef := if noroom then .other "vroom" else .by
+  if name == "nosession" || name == "remote" then some .nosession
   else if name == "session" then some (.session base)
-  else if name == "room" then some (.session { base with room := .by })
-  else if name == "roomr" then some (.session { base with room := .by, restrictedUser := true, restricted := true })
+  else if name == "room" then some (.session { base with room := vroom })
+  else if name == "roomr" then some (.session { base with room := vroom, restrictedUser := true, restricted := true })
   else if name == "internal" then some (.session { base with internal := true })
-  else if name == "internalroom" then some (.session { base with internal := true, room := .by })
+  else if name == "internalroom" then some (.session { base with internal := true, room := vroom })
   else if name == "dialout" then some (.session { base with internal := true, dialoutFeat := true })
   else if name == "federated" then some (.session { base with fed := true })
   else none
 
 structure St where
   model : ShapesClient.St := ShapesClient.St.init
+  noroom : Bool := false
+
+def worldOf (mcu flags : String) : St :=
+  let fl := (if hasPrefix "by=" flags then dropS 3 flags else "").toList
+  { model := { ShapesClient.St.init with
+      world := { mcu := mcu == "mcu=1" || mcu == "mcu=2", transient := [], virt := [],
+                 rcpt := { hideNames := fl.contains 'h', inCall := fl.contains 'c' } } },
+    noroom := fl.contains 'n' }
 
 def step (st : St) (op impl : List String) : St × String × String :=
   match op with
-  | ["world", mcu] =>
-    ({ model := { ShapesClient.St.init with world := { mcu := mcu == "mcu=1" || mcu == "mcu=2", transient := [], virt := [] } } }, "ok", "ok")
+  | ["world", mcu] => (worldOf mcu "", "ok", "ok")
+  -- `by=<flags>`: the bystander as a recipient (n = in no room, h = has hide-displaynames, c = in the call)
+  | ["world", mcu, flags] => (worldOf mcu flags, "ok", "ok")
   | ["state", name] =>
-    match sessOf name with
-    | some c => ({ model := { st.model with conn := c, dialoutState := name == "dialout",
-                                             world := { st.model.world with virt := [] } } }, "ok", "ok")
+    match sessOf name st.noroom with
+    | some c => ({ st with model := { st.model with conn := c, dialoutState := name == "dialout", remote := name == "remote",
+                                                     world := { st.model.world with virt := [] } } }, "ok", "ok")
     | none => (st, "bad-op", "na")
+  -- the bystander's connection goes away (its session waits to be resumed; what is sent to it is queued) ...
+  | ["by", "drop"] =>
+    ({ st with model := { st.model with world := { st.model.world with rcpt := { st.model.world.rcpt with detached := true } } } }, "ok", "ok")
+  -- ... and comes back: the queue is flushed, everything that was queued has to arrive
+  | ["by", "resume"] =>
+    ({ st with model := { st.model with world := { st.model.world with rcpt := { st.model.world.rcpt with detached := false, pendingChat := false } } } },
+      "ok", match impl with
+        | ["ok"] => "ok"
+        | [r] => if hasPrefix "lost" r then "violated:queued-message-not-delivered-on-resume" else "na"
+        | _ => "na")
   | ["race", _n] =>
     -- concurrent leave / transient update of two further clients: everybody is still served
     (st, "ok", match impl with
@@ -174,7 +197,7 @@ def step (st : St) (op impl : List String) : St × String × String :=
       let v := match seen with
         | some z => judge Facts.current st.model f z
         | none => "na"
-      ({ model := next }, render o seen, v)
+      ({ st with model := next }, render o seen, v)
   | _ => (st, "bad-op", "na")
 
 end SigModel.Driver.C10
